@@ -51,6 +51,47 @@ LIMITS["ada::url_aggregator::parse_ipv6"] = LIMITS["ada::url::parse_ipv6"]
 LIMITS["ada::url_aggregator::parse_ipv4"] = LIMITS["ada::url::parse_ipv4"]
 
 
+def _const_arms(e, inits, depth=0):
+    """constant value(s) an operand can take: a literal / named constant, a single-assignment local holding one, or a
+    ternary (possibly through such a local) whose arms are constants -- `limit = dot ? 254 : 253; size > limit`"""
+    e0 = X.strip(e)
+    v = X.const_val(e0) if isinstance(e0, dict) else None
+    if v is not None:
+        return [v]
+    if not isinstance(e0, dict) or depth > 3:
+        return None
+    if e0.get("k") == "ref" and e0.get("kind") == "local" and inits and e0.get("id") in inits:
+        return _const_arms(inits[e0["id"]], inits, depth + 1)
+    if e0.get("k") == "cond":
+        a, b = _const_arms(e0["t"], inits, depth + 1), _const_arms(e0["f"], inits, depth + 1)
+        if a and b:
+            return a + b
+    return None
+
+
+def abstract_all(nd, min_abs=2, inits=None):
+    """like abstract(), but an operand may stand for several constants (see _const_arms): one cut/point per constant"""
+    a = abstract(nd, min_abs)
+    if a is not None:
+        return [a]
+    if not (nd.get("k") == "bin" and nd.get("op") in ("<", "<=", ">", ">=", "==", "!=")) or not inits:
+        return []
+    out = []
+    for side, other in (("r", "l"), ("l", "r")):
+        if X.const_val(nd[other]) is not None:
+            continue
+        arms = _const_arms(nd[side], inits)
+        if arms and X.const_val(nd[side]) is None:
+            for v in arms:
+                fake = dict(nd)
+                fake[side] = {"k": "lit", "v": v}
+                a = abstract(fake, min_abs)
+                if a is not None:
+                    out.append(a)
+            break
+    return out
+
+
 def abstract(nd, min_abs=2):
     if not (nd.get("k") == "bin" and nd.get("op") in ("<", "<=", ">", ">=", "==", "!=")):
         return None
@@ -95,9 +136,9 @@ def check(ctx, fx, rule="H7", table=None, floor=8, contains=False, what="the Sta
             want = dict(want)
             min_abs = want.pop("_min", 2)
             lits = want.pop("_literals", None)
+            inits = C.single_inits(f)
             for nd, st, b in C.all_nodes(f):
-                a = abstract(nd, min_abs)
-                if a is not None:
+                for a in abstract_all(nd, min_abs, inits):
                     got.setdefault(a, st.get("loc") or f["loc"])
             if not got and not f.get("blocks"):
                 continue
